@@ -232,11 +232,11 @@ func (v *View) PodName(ord int) string { return fmt.Sprintf("%s-%d", v.Name, ord
 
 // podActions returns the pod create/delete actions of the record, in order.
 type podAct struct {
-	A       *sim.Action
-	Ord     int
-	Create  bool
-	Class   string // for deletes: "scale" (a), "replace" (b), "update" (c-candidate), "nonmember"
-	Target  *corev1.Pod
+	A      *sim.Action
+	Ord    int
+	Create bool
+	Class  string // for deletes: "scale" (a), "replace" (b), "update" (c-candidate), "nonmember"
+	Target *corev1.Pod
 	// CreatedHere: the delete targets a pod created earlier in the same reconcile
 	CreatedHere bool
 }
